@@ -550,6 +550,14 @@ def part_sensor(ctx, o, c, N):
         o.count()
         if not (s.cls is c and s.func.name == '__init__' and isinstance(s.stmt, ast.Assign) and ast.unparse(s.stmt.value) == 'sensing_interval'):
             o.fail(P, s.ctx, s.stmt, 'the skip interval is not exactly the sensing_interval argument', file=s.mod.path, line=s.line)
+    # the skip counter follows the finished parts only: nothing else (a restore hook, a manual measurement) may restart or shift the cadence
+    cw = inv.covered(P, {'__init__', 'initialize', '_probe_part'})
+    for s in inv.attr_stores(P, '_counter'):
+        if s.cls is not None and c in s.cls.mro:
+            o.count()
+            if s.func is None or s.func.name not in cw:
+                o.fail(P, s.ctx, s.stmt, 'the skip counter of the part sensor is written outside the constructor / initialize / the finished-part hook: '
+                       'the "first part, then every (n+1)-th" cadence would restart or shift', file=s.mod.path, line=s.line)
     gi = ctx.graph(c, 'initialize')
     an2 = Analysis(P, gi, ['_env', '_counter'])
 
